@@ -381,9 +381,9 @@ theorem wf_norm (i : Index) (h : WF i) : WF (norm i) :=
 theorem writeBai_norm (i : Index) : writeBai (norm i) = writeBai i := by
   unfold writeBai; rw [wIndex_norm, norm_refs_length]
 
-/-- `read_write` for BAI: an index with at least one reference reads back as its canonical form -/
-theorem readBai_writeBai (i : Index) (h : WF i) (hne : i.refs ≠ []) :
-    readBai (writeBai i) = .ok (some (norm i)) := by
+/-- `read_write` for BAI: every well-formed index (also one without references) reads back as its
+canonical form -/
+theorem readBai_writeBai (i : Index) (h : WF i) : readBai (writeBai i) = .ok (norm i) := by
   unfold readBai writeBai
   have hm : rBytes 4 (baiMagic ++ i32 (i.refs.length : Int) ++ wIndex i) =
       .ok (baiMagic, i32 (i.refs.length : Int) ++ wIndex i) := by
@@ -392,23 +392,7 @@ theorem readBai_writeBai (i : Index) (h : WF i) (hne : i.refs ≠ []) :
   simp only [ne_eq, not_true_eq_false, if_false]
   have hn := h.nrefs
   rw [rI32_i32 _ (by omega) (by omega)]
-  have h0 : ¬ ((i.refs.length : Int) = 0) := by
-    cases hr : i.refs with
-    | nil => exact absurd hr hne
-    | cons a b => simp; omega
-  simp only [h0, if_false]
+  simp only
   rw [rIndex_wIndex i h]
-
-/-- the zero-reference case (DESIGN §6 #25): `bam.ReadIndex` returns a nil index -/
-theorem readBai_writeBai_noRefs (i : Index) (hne : i.refs = []) : readBai (writeBai i) = .ok none := by
-  unfold readBai writeBai
-  have hm : rBytes 4 (baiMagic ++ i32 (i.refs.length : Int) ++ wIndex i) =
-      .ok (baiMagic, i32 (i.refs.length : Int) ++ wIndex i) := by
-    simp [rBytes, baiMagic]
-  rw [hm]
-  simp only [ne_eq, not_true_eq_false, if_false]
-  rw [hne]
-  rw [rI32_i32 _ (by simp) (by simp)]
-  simp
 
 end Hts.Model.IndexIO
